@@ -32,6 +32,14 @@ THEOREMS = [
     'CpProofs.C20.C20_at_most_once_after_stop_asIs_false',
     'CpProofs.C20.C20_one_worker_asIs_false',
     'CpProofs.C20.C20_graceful_leaves_one_asIs_false',
+    'CpProofs.C20.C20_exiting_stable',
+    'CpProofs.C20.C20_block_returns',
+    'CpProofs.C20.C20_block_only_after_exiting',
+    'CpProofs.C20.C20_execv_iff_restart',
+    'CpProofs.C20.C20_thread_notifications',
+    'CpProofs.C20.C20_thread_notifications_quiescent',
+    'CpProofs.C20.C20_thread_notifications_partial',
+    'CpProofs.C20.C20_thread_notifications_asIs_false',
 ]
 LEVEL = 'proof'
 TECHNIQUE = ('Lean 4 proof: inductive invariants over the step relation of line-granular interleaving models '
